@@ -305,6 +305,37 @@ theorem C20.pspace_element_length (T : DTables) (l : List Space) (w : Weighting)
   · intro h1; simp [h1]
   · intro h1 h2; simp [h1, h2]
 
+/-- `cast=False` changes nothing for inputs made of members: `element(inp, cast=False)`
+returns `inp` itself for an element of the space (or of any EQUAL space, however it was
+built), and wraps a sequence of the right length whose items are elements of spaces EQUAL to
+the respective components (`v.space == space`, not identity) — it never raises `TypeError`
+for them; for every other input it agrees with `cast=True` except that the item-wise
+conversion is replaced by `TypeError`. -/
+theorem C20.pspace_element_cast_false (T : DTables) (l : List Space) (w : Weighting) (f : Fld)
+    (inp : Inp) :
+    ((Space.prod l w f).contains inp.space? = true →
+      (Space.prod l w f).elementC T false inp = .same) ∧
+    (∀ ps, (Space.prod l w f).contains inp.space? = false → inp.parts? = some ps →
+      ps.length = l.length → Space.allMember l ps = true →
+      (Space.prod l w f).elementC T false inp = .prod true [] ∧
+      (Space.prod l w f).elementC T true inp = .prod true []) ∧
+    ((Space.prod l w f).elementC T true inp = (Space.prod l w f).element T inp) := by
+  refine ⟨?_, ?_, ?_⟩
+  · intro h; simp [Space.elementC, h]
+  · intro ps hm hp hl ha; simp [Space.elementC, hm, hp, hl, ha]
+  · simp [Space.elementC, Space.element]
+
+/-- the items only have to be elements of EQUAL spaces: a fresh `rn(3)` element is accepted by
+`ProductSpace(rn(2), rn(3)).element([...], cast=False)` -/
+example :
+    let r2 : Space := .tensor ⟨[2], .float64, defaultW .np⟩
+    let r3 : Space := .tensor ⟨[3], .float64, defaultW .np⟩
+    (Space.prod [r2, r3] (defaultW .ps) .real).elementC OdlModel.Gen.DTypes.tables false
+      (.seq [.elem r2 [2] .float64 [1, 2], .elem r3 [3] .float64 [1, 2, 3]]) = .prod true [] := by
+  simp [Space.elementC, Space.contains, Inp.space?, Inp.parts?, Space.allMember, Space.eqI,
+    TSpace.eqI, Weighting.eqI, Weighting.baseEq, Weighting.cls, Weighting.exponent, defaultW,
+    Fl.numEq]
+
 /-! ## derived spaces -/
 
 /-- `astype_descr`: whenever `space.astype(dtype)` returns, the shape is unchanged, the dtype
